@@ -67,6 +67,8 @@ def judge(ctx, cid, case, res):
     ctx.count("rules:%s/%s" % (case["target_rule"], case["ref_rule"]))
     ctx.count("route:%s" % ("weaver" if case.get("weaver") else "function"))
     ctx.count("ref:%s%s" % ("on_grid" if case["on_grid"] else "off_grid", "+extras" if case["extras"] else ""))
+    if case.get("same_grid"):
+        ctx.count("ref:the_grid_of_the_input_itself")
     if not M.well_formed(res, len(case["x"])):
         ctx.violation("result_malformed", cid, {"type": type(res).__name__, "res": res, "case": M.brief(case)})
         return
